@@ -245,7 +245,7 @@ def generate_xy(rng, i):
     ny = len(tb["ycols"])
     acts = [[round(rng.uniform(-0.3, 0.5), 4) for _ in range(ny)] for _ in range(7)]
     return {"kind": "xy", "tables": tb, "kwargs": kw, "fold": None, "actions": acts, "np_seed": rng.randrange(2 ** 31),
-            "cut": tb["dates"][kcut], "pseed": rng.randrange(2 ** 31)}
+            "cut": tb["dates"][kcut], "pseed": rng.randrange(2 ** 31), "shared_first": rng.random() < 0.4}
 
 
 def perturb_tables(tb, cut, pseed):
@@ -290,6 +290,8 @@ def execute_xy(scenario):
             {k: y.get(k) for k in keys} if isinstance(y, dict) else y), variant="XY", kind=kind or "length", field=keys[0] if keys else "?")
     effective = [canon(r) for r in base] != [canon(r) for r in other]
     probe("xy_twin")
+    if scenario.get("shared_first"):
+        probe("xy_second_environment_from_the_same_tables")
     if effective:
         probe("effective_perturbation")
     if len(a) >= 2:
